@@ -52,6 +52,11 @@ impl PartialEqSpecImpl for N {
     open spec fn eq_spec(&self, other: &N) -> bool { self.0 == other.0 }
 }
 impl PartialEq for N { fn eq(&self, other: &N) -> (r: bool) { self.0 == other.0 } }
+impl PartialEqSpecImpl<u128> for N {
+    open spec fn obeys_eq_spec() -> bool { true }
+    open spec fn eq_spec(&self, other: &u128) -> bool { self.0 == *other }
+}
+impl PartialEq<u128> for N { fn eq(&self, other: &u128) -> (r: bool) { self.0 == *other } }
 impl PartialOrdSpecImpl for N {
     open spec fn obeys_partial_cmp_spec() -> bool { true }
     open spec fn partial_cmp_spec(&self, other: &N) -> Option<Ordering> {
@@ -395,7 +400,7 @@ impl MulDivLeaf for u128 {
     open spec fn tmax() -> int { u128::MAX as int }
 
     fn checked_mul_div(&self, numerator: &Self, denominator: &Self) -> (r: Option<Self>)
-{ // <<< body extracted from crates/model/src/num.rs:341 (checked_mul_div) hash 21211a70d073e8d7
+{ // <<< body extracted from crates/model/src/num.rs:345 (checked_mul_div) hash 21211a70d073e8d7
 
 proof { broadcast use axiom_u256_view, axiom_u256_range; lemma_mul_upper_bound(*self as int, u128::MAX as int, *numerator as int, u128::MAX as int); }
 
@@ -411,7 +416,7 @@ proof { broadcast use axiom_u256_view, axiom_u256_range; lemma_mul_upper_bound(*
 } // >>> end of extracted body
 
     fn checked_mul_div_ceil(&self, numerator: &Self, denominator: &Self) -> (r: Option<Self>)
-{ // <<< body extracted from crates/model/src/num.rs:353 (checked_mul_div_ceil) hash b0653cc5162fbe9a
+{ // <<< body extracted from crates/model/src/num.rs:357 (checked_mul_div_ceil) hash b0653cc5162fbe9a
 
 proof { broadcast use axiom_u256_view, axiom_u256_range; lemma_mul_upper_bound(*self as int, u128::MAX as int, *numerator as int, u128::MAX as int); }
 
@@ -575,14 +580,18 @@ proof { lemma_mul_signed_abs(self@, other@); }
         ensures
             r.is_some() <==> (divisor@ != 0 && self@ + divisor@ <= umax()),
             r.is_some() ==> r.unwrap()@ == div_ceil(self@, divisor@),
-{ // <<< body extracted from crates/model/src/num.rs:159 (checked_round_up_div) hash 70389a00d8c7c299
+{ // <<< body extracted from crates/model/src/num.rs:159 (checked_round_up_div) hash ef1ae2cce0832725
 
         if divisor.is_zero() {
             return None;
         }
-        self.checked_add(divisor)?
-            .checked_sub(&One::one())?
-            .checked_div(divisor)
+        match self.checked_add(divisor) {
+            Some(sum) => sum.checked_sub(&One::one())?.checked_div(divisor),
+            // `self + divisor` does not fit in `Self`, but the quotient itself
+            // always does, so compute it without the intermediate sum instead
+            // of failing for large dividends.
+            None => self.checked_div(divisor)?.checked_add(&One::one()),
+        }
     
 } // >>> end of extracted body
 
@@ -597,7 +606,7 @@ proof { lemma_mul_signed_abs(self@, other@); }
             (min@ <= max@ && min@ <= abs(value@) <= max@) ==> r.is_ok() && r.unwrap()@ == value@,
             // summary: |result| within [min,max], sign kept (zero counts as positive)
             r.is_ok() ==> min@ <= abs(r.unwrap()@) <= max@ && (value@ < 0 ==> r.unwrap()@ <= 0) && (value@ >= 0 ==> r.unwrap()@ >= 0),
-{ // <<< body extracted from crates/model/src/num.rs:213 (bound_magnitude) hash ef65c53f2a76e638
+{ // <<< body extracted from crates/model/src/num.rs:217 (bound_magnitude) hash ef65c53f2a76e638
 
         if min > max {
             return Err(E::InvalidArgument);
@@ -619,7 +628,7 @@ proof { lemma_mul_signed_abs(self@, other@); }
             r.is_some() <==> (denominator@ != 0 && mul_div_floor(self@, abs(numerator@), denominator@) <= imax()),
             // magnitude floored (i.e. truncation toward zero), sign of the numerator
             r.is_some() ==> r.unwrap()@ == (if numerator@ < 0 { -mul_div_floor(self@, abs(numerator@), denominator@) } else { mul_div_floor(self@, abs(numerator@), denominator@) }),
-{ // <<< body extracted from crates/model/src/num.rs:258 (checked_mul_div_with_signed_numerator) hash 802552283f7eab84
+{ // <<< body extracted from crates/model/src/num.rs:262 (checked_mul_div_with_signed_numerator) hash 802552283f7eab84
 
 proof { if numerator@ == 0 { lemma_mul_basics(self@); if denominator@ != 0 { lemma_div_basics(denominator@); } } }
 
